@@ -240,7 +240,10 @@ func (c *cnrEnv) deploy(name string, data any) util.Uint160 {
 // invokeAt sends one transaction in a block whose timestamp is dt ms later
 // than the default (+1 ms).
 func (c *cnrEnv) invokeAt(dt uint64, signers []neotest.Signer, h util.Uint160, method string, args ...any) (Result, uint64) {
-	tx := c.PrepareTx(signers, h, method, args...)
+	// storing a 64 KiB descriptor costs about 65 GAS: a generous system fee, so
+	// that gas (not modelled) never decides an outcome
+	tx := c.E.NewUnsignedTx(c.T, h, method, args...)
+	c.E.SignTx(c.T, tx, 400_0000_0000, signers...)
 	b := c.E.NewUnsignedBlock(c.T, tx)
 	b.Timestamp += dt
 	c.E.SignBlock(b)
@@ -1952,3 +1955,29 @@ func runContainerFamily(t *testing.T, prop string) {
 
 func TestC04(t *testing.T) { runContainerFamily(t, "C04") }
 func TestC05(t *testing.T) { runContainerFamily(t, "C05") }
+
+func TestCnrSizeProbe(t *testing.T) {
+	if os.Getenv("VERIF_PROBE") == "" {
+		t.Skip()
+	}
+	c := newCnrEnv(t, 1)
+	al := []int{-1}
+	c.exec(cnrOp{Kind: "setConfig", Key: "ContainerFee", Amount: big.NewInt(0), Signers: al})
+	mk := func(L int, salt byte) []byte {
+		b := make([]byte, L)
+		for i := range b {
+			b[i] = 0x41
+		}
+		b[0], b[1] = 0x0a, 0
+		copy(b[6:], c.ownerIDs[0])
+		b[L-1] = salt
+		return b
+	}
+	tx := c.E.NewUnsignedTx(t, c.container, "put", mk(60000, 1), cnrSigA, c.pubs[0], cnrTok)
+	base := len(tx.Script) - 60000
+	t.Logf("script overhead %d -> max blob by script limit %d", base, 65535-base)
+	for i, L := range []int{252, 253, 65535 - base, 65535 - base + 1, 65421, 65422, 65500} {
+		o := c.exec(cnrOp{Kind: "put", Blob: mk(L, byte(i+1)), Sig: cnrSigA, Pub: c.pubs[0], Tok: cnrTok, Signers: al})
+		t.Logf("L=%d halt=%v fault=%q count=%d", L, o.halt, o.fault, o.count)
+	}
+}
